@@ -502,6 +502,123 @@ fn c18_repeat_then_perturb<D: Dec>(run: &mut Run) {
     run.part(&format!("{}_repeat_then_perturb", D::NAME), json!({"cases": n, "repeat_counts": "1..=8", "contexts": ctxs.len()}));
 }
 
+/// The alphabet of the two-phase grammar / workloads at Keyboard level.
+fn deep_alphabet<D: Dec>() -> Vec<Op> {
+    let (a, arrow, unk) = if D::IS_SET2 { (0x1Cu8, 0x75u8, 0x02u8) } else { (0x1Eu8, 0x48u8, 0x7Fu8) };
+    let brk: u8 = if D::IS_SET2 { 0xF0 } else { 0x9E };
+    vec![
+        Op::Word(frame::encode(a)), Op::Word(frame::encode(arrow)), Op::Word(frame::encode(0xE0)), Op::Word(frame::encode(brk)), Op::Word(frame::encode(unk)),
+        Op::Word(frame::encode(a) ^ 0x200), Op::Word(frame::encode(a) | 1), Op::Word(frame::encode(a) & !0x400),
+        Op::Byte(a), Op::Byte(0xE0), Op::Byte(unk), Op::Byte(0xFF), Op::Byte(0x00),
+        Op::Bit(true), Op::Bit(false), Op::Clear,
+        Op::Event(KeyCode::A, KeyState::Down), Op::Event(KeyCode::LShift, KeyState::Down), Op::Event(KeyCode::LShift, KeyState::Up), Op::Event(KeyCode::CapsLock, KeyState::Down), Op::Event(KeyCode::NumpadLock, KeyState::Down),
+    ]
+}
+
+/// Deep-history families at Keyboard level, compared with the wired stages at every step:
+///  G4a  S A^i B^j T   setup S (nothing / a modifier held via events / a prefix pending),
+///                     two phases of repetition over a 21-symbol alphabet with
+///                     (i,j) in {(700,0),(700,5),(5,700),(700,700),(150,150)}, tails T
+///  G4b  noisy line    6000 frames of typing traffic (incl. typematic repeats of lock keys) with
+///                     every r-th frame corrupted and occasional clear(), events processed
+pub fn deep_ops<D: Dec>() -> (Vec<Vec<Op>>, usize) {
+    let alpha = deep_alphabet::<D>();
+    let (arrow, e0) = if D::IS_SET2 { (0x75u8, 0xE0u8) } else { (0x48u8, 0xE0u8) };
+    let setups: Vec<Vec<Op>> = vec![vec![], vec![Op::Event(KeyCode::LShift, KeyState::Down)], vec![Op::Event(KeyCode::RControl, KeyState::Down)], vec![Op::Byte(e0)], vec![Op::Word(frame::encode(if D::IS_SET2 { 0x12 } else { 0x2A }))]];
+    let tails: Vec<Vec<Op>> = vec![vec![], vec![Op::Byte(e0), Op::Clear, Op::Byte(arrow)], vec![Op::Byte(e0), Op::Word(frame::encode(arrow) ^ 0x200), Op::Byte(arrow)], vec![Op::Event(KeyCode::CapsLock, KeyState::Down), Op::Event(KeyCode::CapsLock, KeyState::Down)]];
+    let mut fam = Vec::new();
+    for s0 in &setups {
+        for a in &alpha {
+            for b in &alpha {
+                for (i, j) in [(700usize, 0usize), (700, 5), (5, 700), (700, 700), (150, 150)] {
+                    if j == 0 && a != b { continue; }
+                    for t in &tails {
+                        let mut v = s0.clone();
+                        v.extend(std::iter::repeat(*a).take(i));
+                        v.extend(std::iter::repeat(*b).take(j));
+                        v.extend(t.iter().copied());
+                        fam.push(v);
+                    }
+                }
+            }
+        }
+    }
+    let g4a = fam.len();
+    let traffic: Vec<u8> = if D::IS_SET2 { vec![0x12, 0x1C, 0x1C, 0x1C, 0xF0, 0x1C, 0xE0, 0x75, 0xE0, 0xF0, 0x75, 0xF0, 0x12, 0x58, 0x58, 0xF0, 0x58, 0x77, 0x77, 0xF0, 0x77, 0x14, 0x21, 0xF0, 0x21, 0xF0, 0x14] } else { vec![0x2A, 0x1E, 0x1E, 0x1E, 0x9E, 0xE0, 0x48, 0xE0, 0xC8, 0xAA, 0x3A, 0x3A, 0xBA, 0x45, 0x45, 0xC5, 0x1D, 0x2E, 0xAE, 0x9D] };
+    for r in [0usize, 100, 33, 10, 3] {
+        for via_bits in [false, true] {
+            for clears in [false, true] {
+                let mut v: Vec<Op> = Vec::new();
+                for i in 0..6000usize {
+                    let w = frame::encode(traffic[i % traffic.len()]);
+                    let w = if r > 0 && i % r == 1 { w ^ (1 << (i % 11)) } else { w };
+                    if clears && i % 97 == 50 {
+                        v.extend(bits_ops(w, 1 + i % 10));
+                        v.push(Op::Clear);
+                    }
+                    if via_bits { v.extend(bits_ops(w, 11)) } else { v.push(Op::Word(w)) }
+                }
+                fam.push(v);
+            }
+        }
+    }
+    (fam, g4a)
+}
+
+/// run an op sequence on the Keyboard and on the wired stages, *processing every decoded key
+/// event* on both sides as a real driver would; first divergence index
+fn diverge_driver<D: Dec>(ops: &[Op], start_mode: HandleControl) -> Result<Option<(usize, String, String)>, String> {
+    guard(|| {
+        let mut real = Keyboard::new(D::fresh(), EncLayout { id: 0 }, start_mode);
+        let mut wired = Wired { ps2: Ps2Decoder::new(), sc: D::fresh(), ed: EventDecoder::new(EncLayout { id: 0 }, start_mode) };
+        for (i, op) in ops.iter().enumerate() {
+            let a = wired.apply(op);
+            let b = apply_kbd(&mut real, op);
+            if a != b {
+                return Some((i, ret_str(&a), ret_str(&b)));
+            }
+            if let (Ret::Sc(Ok(Some(ea))), Ret::Sc(Ok(Some(eb)))) = (&a, &b) {
+                let da = wired.ed.process_keyevent(ea.clone());
+                let db = real.process_keyevent(eb.clone());
+                if da != db {
+                    return Some((i, format!("process({:?})={}", ea, ret_str(&Ret::Dk(da))), format!("process({:?})={}", eb, ret_str(&Ret::Dk(db)))));
+                }
+            }
+        }
+        None
+    })
+}
+
+fn c18_deep<D: Dec>(run: &mut Run) {
+    use rayon::prelude::*;
+    let (fam, g4a) = deep_ops::<D>();
+    let mode = HandleControl::MapLettersToUnicode;
+    let bad: Vec<usize> = fam.par_iter().enumerate().filter_map(|(i, v)| {
+        let plain = !matches!(diverge::<D>(v, mode), Ok(None));
+        let driver = !matches!(diverge_driver::<D>(v, mode), Ok(None));
+        if plain || driver { Some(i) } else { None }
+    }).collect();
+    run.eval(fam.len() as u64 * 2);
+    run.nontrivial_enum(fam.len() as u64);
+    for i in bad.iter().take(6) {
+        let before = run.violations.len();
+        c18_eval::<D>(run, &fam[*i], mode);
+        if run.violations.len() == before {
+            // only the driver variant (decoded events fed back) diverges
+            if let Ok(Some((k, want, got))) = diverge_driver::<D>(&fam[*i], mode) {
+                let shown = &fam[*i][..=k];
+                run.violation(Violation {
+                    sig: format!("kbd:{}:driver:[{}]:step={}:wired={}:keyboard={}", D::NAME, ops_text(&shown[shown.len().saturating_sub(12)..]), k, want.replace(' ', ""), got.replace(' ', "")),
+                    what: format!("Keyboard<_, {}> driven like a real driver (every decoded key event passed to process_keyevent) diverges from the three wired stages at operation #{}: Keyboard gives {}, wired stages give {}; last operations: [{}]", D::NAME, k, got, want, ops_text(&shown[shown.len().saturating_sub(40)..])),
+                    case: json!({"kind":"kbd_ops_driver","set":D::NAME,"start_mode":mode_name(mode),"ops":ops_json(shown),"text":ops_text(shown)}),
+                });
+            }
+        }
+    }
+    run.total_violating_cases += bad.len().saturating_sub(6) as u64;
+    run.part(&format!("{}_deep_history_families", D::NAME), json!({"S.A^i.B^j.T": g4a, "noisy_line_workloads(6000 frames)": fam.len() - g4a, "ops_total": fam.iter().map(|v| v.len() as u64).sum::<u64>(), "failing": bad.len()}));
+}
+
 fn c18_pumping<D: Dec>(run: &mut Run) {
     let mut n = 0u64;
     let pats = pump_op_patterns(D::IS_SET2);
@@ -516,7 +633,7 @@ fn c18_pumping<D: Dec>(run: &mut Run) {
 }
 
 pub fn c18(run: &mut Run) {
-    run.rule = "Differential against three separately owned stages (Ps2Decoder, ScancodeSetN, EventDecoder) wired exactly as the property says; every return value is compared, and after each sequence both sides receive a probe suffix that fingerprints every stage behaviourally (press of A through an argument-encoding layout = modifiers + mode; byte 0x14/0x1D = a different event in every scancode context; two valid frames bit by bit = pending count and register contents). Exhaustive per-operation slices over the fed stage with the other stages in non-initial states: add_bit (2047 frame states x 2 bits x 6/3 scancode contexts x 8 modifier states), add_word (2048 words x contexts x 8 x 3 frame states), add_byte (256 x contexts x 64 frame states x 8), process_keyevent (124 x 3 x 64 frame states x contexts x 2), clear / set_ctrl_handling (2047 x contexts x 8 x 3). State exploration: BFS over a 21-symbol alphabet of operations with states named by Keyboard's Debug rendering. Repeat-then-perturb: the same accepted frame 1-8 times (typematic repeat, as words and bit by bit), then each single-bit corruption, in every scancode context. Pumping: typical operation patterns repeated for >= 70,000 operations. Random: interleavings of all six entry points with line noise (corrupted frames, partial frames + clear(), raw words), shrunk by proptest. Non-trivial slice = another stage in a non-initial state (distinct by construction); non-trivial sequence = mixes >= 2 entry points and contains a rejected frame or a clear() with pending bits while a scancode prefix is pending (distinct by op string).".into();
+    run.rule = "Differential against three separately owned stages (Ps2Decoder, ScancodeSetN, EventDecoder) wired exactly as the property says; every return value is compared, and after each sequence both sides receive a probe suffix that fingerprints every stage behaviourally (press of A through an argument-encoding layout = modifiers + mode; byte 0x14/0x1D = a different event in every scancode context; two valid frames bit by bit = pending count and register contents). Exhaustive per-operation slices over the fed stage with the other stages in non-initial states: add_bit (2047 frame states x 2 bits x 6/3 scancode contexts x 8 modifier states), add_word (2048 words x contexts x 8 x 3 frame states), add_byte (256 x contexts x 64 frame states x 8), process_keyevent (124 x 3 x 64 frame states x contexts x 2), clear / set_ctrl_handling (2047 x contexts x 8 x 3). State exploration: BFS over a 21-symbol alphabet of operations with states named by Keyboard's Debug rendering. Repeat-then-perturb: the same accepted frame 1-8 times (typematic repeat, as words and bit by bit), then each single-bit corruption, in every scancode context. Deep-history families: two-phase repetition grammar S A^i B^j T over a 21-symbol alphabet with (i,j) up to (700,700) and noisy-line workloads of 6000 frames, also in 'driver' form (every decoded key event fed to process_keyevent on both sides). Pumping: typical operation patterns repeated for >= 70,000 operations. Random: interleavings of all six entry points with line noise (corrupted frames, partial frames + clear(), raw words), shrunk by proptest. Non-trivial slice = another stage in a non-initial state (distinct by construction); non-trivial sequence = mixes >= 2 entry points and contains a rejected frame or a clear() with pending bits while a scancode prefix is pending (distinct by op string).".into();
     run.assumptions = vec![
         "the three stage types are used as their own reference: this is the relation the property states; what each stage does alone is C01-C07/C04/C14's business".into(),
         "words with bits above bit 10 are excluded (outside add_word's documented precondition)".into(),
@@ -529,6 +646,8 @@ pub fn c18(run: &mut Run) {
     c18_explore::<ScancodeSet1>(run);
     c18_repeat_then_perturb::<ScancodeSet2>(run);
     c18_repeat_then_perturb::<ScancodeSet1>(run);
+    c18_deep::<ScancodeSet2>(run);
+    c18_deep::<ScancodeSet1>(run);
     run.exhaustive = true;
     let n = run.tier.pick(5_000u32, 500_000u32);
     c18_random::<ScancodeSet2>(run, n);
@@ -833,6 +952,59 @@ pub fn c08(run: &mut Run) {
         }
     }
     run.part("pumping", json!({"ops_fed": n}));
+    {
+        // the deep-history families of C18 (two-phase repetition grammar, noisy-line workloads)
+        // with the oracle disarmed: the calls must return
+        let mut total = 0u64;
+        for set2 in [true, false] {
+            let (fam, _) = if set2 { deep_ops::<ScancodeSet2>() } else { deep_ops::<ScancodeSet1>() };
+            let bad: Vec<usize> = fam.par_iter().enumerate().filter_map(|(i, v)| {
+                let r = if set2 { diverge_driver::<ScancodeSet2>(v, HandleControl::MapLettersToUnicode) } else { diverge_driver::<ScancodeSet1>(v, HandleControl::MapLettersToUnicode) };
+                if r.is_err() { Some(i) } else { None }
+            }).collect();
+            total += fam.len() as u64;
+            for i in bad.iter().take(4) {
+                if set2 { c08_eval_ops::<ScancodeSet2>(run, L_US, &fam[*i]) } else { c08_eval_ops::<ScancodeSet1>(run, L_US, &fam[*i]) }
+            }
+        }
+        // byte-stream families through Keyboard::add_byte and the bit-level unit grammar
+        for set2 in [true, false] {
+            let (fam, _) = crate::checks::sc::deep_stream_families(set2, run.tier == crate::report::Tier::Thorough);
+            let bad: Vec<usize> = fam.par_iter().enumerate().filter_map(|(i, v)| {
+                let r = guard(|| {
+                    if set2 { let mut k = Keyboard::new(ScancodeSet2::new(), Us104Key, HandleControl::Ignore); for b in v { let _ = k.add_byte(*b); } }
+                    else { let mut k = Keyboard::new(ScancodeSet1::new(), Us104Key, HandleControl::Ignore); for b in v { let _ = k.add_byte(*b); } }
+                });
+                if r.is_err() { Some(i) } else { None }
+            }).collect();
+            total += fam.len() as u64;
+            for i in bad.iter().take(4) {
+                if set2 { c08_eval_bytes::<ScancodeSet2>(run, &fam[*i]) } else { c08_eval_bytes::<ScancodeSet1>(run, &fam[*i]) }
+            }
+        }
+        let bitfam = crate::checks::frame::long_unit_grammar();
+        let bad: Vec<usize> = bitfam.par_iter().enumerate().filter_map(|(i, v)| {
+            let r = guard(|| {
+                let mut d = Ps2Decoder::new();
+                let mut k = Keyboard::new(ScancodeSet2::new(), Us104Key, HandleControl::Ignore);
+                for o in v {
+                    match o {
+                        gen::BitOp::Bit(b) => { let _ = d.add_bit(*b); let _ = k.add_bit(*b); }
+                        gen::BitOp::Clear => { d.clear(); k.clear(); }
+                    }
+                }
+            });
+            if r.is_err() { Some(i) } else { None }
+        }).collect();
+        total += bitfam.len() as u64;
+        for i in bad.iter().take(4) {
+            let ops: Vec<Op> = bitfam[*i].iter().map(|o| match o { gen::BitOp::Bit(b) => Op::Bit(*b), gen::BitOp::Clear => Op::Clear }).collect();
+            c08_eval_ops::<ScancodeSet2>(run, L_US, &ops);
+        }
+        run.eval(total);
+        run.nontrivial_enum(total);
+        run.part("deep_history_families", json!({"sequences": total}));
+    }
     if run.tier == crate::report::Tier::Thorough {
         const N: u64 = (1u64 << 32) + 2;
         let jobs: Vec<(&str, Box<dyn Fn() + Send + Sync>)> = vec![
@@ -909,6 +1081,16 @@ pub fn replay(run: &mut Run, case: &Value) -> bool {
         "kbd_ops" => {
             let ops = ops_from_json(&case["ops"]);
             if set2 { c18_eval::<ScancodeSet2>(run, &ops, start) } else { c18_eval::<ScancodeSet1>(run, &ops, start) }
+        }
+        "kbd_ops_driver" => {
+            let ops = ops_from_json(&case["ops"]);
+            run.eval(1);
+            let r = if set2 { diverge_driver::<ScancodeSet2>(&ops, start) } else { diverge_driver::<ScancodeSet1>(&ops, start) };
+            if let Ok(Some((k, want, got))) = r {
+                run.violation(Violation { sig: format!("kbd:driver:step={}:wired={}:keyboard={}", k, want.replace(' ', ""), got.replace(' ', "")), what: format!("Keyboard diverges from the wired stages at operation #{}: {} vs {}", k, got, want), case: case.clone() });
+            } else if let Err(p) = r {
+                run.violation(Violation { sig: format!("kbd:driver:{}", panic_sig(&p)), what: format!("panic: {}", p), case: case.clone() });
+            }
         }
         "c08_ops" => {
             let ops = ops_from_json(&case["ops"]);
